@@ -104,7 +104,9 @@ def arith (ws : List String) : Option String :=
 
 /-! ### C25 -/
 
-def parseClosure (w : String) : Option Refs.Closure :=
+def parseClosure (w0 : String) : Option Refs.Closure :=
+  let joined := w0.endsWith "!"
+  let w := if joined then (w0.dropEnd 1).toString else w0
   match w.splitOn ":" with
   | [g, op] =>
     let grp : Option (Option Nat) := if g == "-" then some none else g.toNat?.map some
@@ -116,7 +118,7 @@ def parseClosure (w : String) : Option Refs.Closure :=
       | 'r' :: r => (String.ofList r).toNat?.map .read
       | _ => none
     match grp, o with
-    | some g, some o => some ⟨g, o⟩
+    | some g, some o => some ⟨g, o, joined⟩
     | _, _ => none
   | _ => none
 
@@ -127,13 +129,22 @@ def parseRefs (tags : List String) : Option Refs.Prog :=
     | hd :: cl =>
       match cl.mapM parseClosure with
       | some cs =>
-        if hd == "V" then some ⟨true, 0, cs⟩
+        if hd == "V" then some ⟨.vec, cs⟩
+        else if hd == "O" then some ⟨.opt, cs⟩
         else match hd.toList with
-          | 'S' :: r => (String.ofList r).toInt?.map fun i => ⟨false, i, cs⟩
+          | 'S' :: r => (String.ofList r).toInt?.map fun i => ⟨.single i, cs⟩
           | _ => none
       | none => none
     | [] => none
   | [] => none
+
+/-- the access groups as `find_access_group_ordering` sees them: (BTreeMap key, members) ascending, and the number of
+consecutive-group pairs -/
+def showGroups (p : Refs.Prog) : String :=
+  let gs := Refs.groupSizes p.closures
+  let showKey (k : Nat) : String := if k == 0 then "-" else toString (k - 1)
+  let body := if gs.isEmpty then "-" else ",".intercalate (gs.map fun g => s!"{showKey g.1}:{g.2}")
+  s!"g={body} pairs={(Refs.accessGroupPairs (Refs.targetOf p.closures)).length}"
 
 /-! ### C26 -/
 
@@ -198,13 +209,16 @@ def c26Op (st : DSt) (ws : List String) : Option (DSt × String) :=
 def c25Op (st : DSt) (ws : List String) : Option (DSt × String) :=
   match ws, st.refs with
   | ["send", v], some _ => (parseVals v).map fun vs => ({ st with q1 := st.q1 ++ vs }, "ok")
+  | ["groups"], some p => some (st, showGroups p)
   | ["tick", n], some p =>
     match n.toNat? with
     | some n =>
       if n ≤ 8 then
-        let o := Refs.tick p st.q1 n
-        some ({ st with q1 := [], wake := { st.wake with ticks := st.wake.ticks + 1 } },
-          s!"t={st.wake.ticks + 1} out={showTaps (o.map fun r => (r.1, [r.2]))}")
+        match Refs.tick p st.q1 n with
+        | some o =>
+          some ({ st with q1 := [], wake := { st.wake with ticks := st.wake.ticks + 1 } },
+            s!"t={st.wake.ticks + 1} out={showTaps (o.map fun r => (r.1, [r.2]))}")
+        | none => some ({ st with refs := none }, "panic")
       else none
     | none => none
   | _, _ => none
